@@ -8,7 +8,7 @@ import ast
 
 from ..core import AnchorError, call_name, norm, short, own_nodes, kwarg, FUNC_TYPES
 from ..cfg import cfg_of
-from ..lib import calls_in, stmts_in, gate, must_pass, node_has, params, dominating_facts
+from ..lib import calls_in, stmts_in, gate, must_pass, node_has, params, dominating_facts, effective_body
 
 COMP = 'jedi.api.completion'
 CLS = 'jedi.api.classes'
@@ -191,7 +191,7 @@ def rule_f(repo, chk):
     for r in fz + st:
         chk.ob('C04.f', [norm(a) for a in r.value.args] == ['string', 'like_name'], r, 'arguments passed in order (string, like_name)')
     s = repo.find(HELP, '_start_match')
-    ok = len(s.body) == 1 and norm(s.body[0]) == 'return string.startswith(like_name)'
+    ok = [norm(x) for x in effective_body(s)] == ['return string.startswith(like_name)']
     chk.ob('C04.f', ok, s, '_start_match is string.startswith(like_name)')
     z = repo.find(HELP, '_fuzzy_match')
     txt = [norm(x) for x in z.body]
